@@ -18,6 +18,7 @@ INSERTS = [
     ('writingDone <- prevG', 'after', '\t\t\t\t\t\tverifTrace(fmt.Sprintf("putback:%d", g), prevG)'),
     ('writeGeneration(g, models, modelNames)', 'after', '\t\t\t\tverifTrace("written", g)'),
     ('writingDone <- g', 'after', '\t\t\t\tverifTrace("sent", g)'),
+    ('nextLink++', 'after', '\t\t\tverifTrace("link", i)'),
     ('genLinkEnd := time.Now()', 'before', '\t\tverifTrace("linked", i)'),
     ('genFinished := <-writingDone', 'after', '\t\t\tverifTrace("main-recv", genFinished)'),
     ('writingDone <- genFinished', 'after', '\t\t\tverifTrace("main-putback", genFinished)'),
@@ -30,6 +31,8 @@ def patched_main(src):
     lines = src.split('\n')
     missing = []
     for anchor, where, text in INSERTS:
+        if any(l.strip() == text.strip() for l in lines):
+            continue                      # this call is already in /repo's main.go
         idx = [i for i, l in enumerate(lines) if anchor in l and 'verifTrace' not in l]
         # 'writingDone <- g' must not match 'writingDone <- genFinished'
         if anchor == 'writingDone <- g':
@@ -52,22 +55,25 @@ def build_owsim(race=False):
     out = os.path.join(HARNESS, 'bin', 'ow-sim-verif' + ('-race' if race else ''))
     cmd = ['go', 'build', '-tags', 'verif'] + (['-race'] if race else [])
     note = 'hooks from /repo'
-    missing = []
-    if not hooks_in_repo():
-        src = open(os.path.join(REPO, 'cmd', 'ow-sim', 'main.go')).read()
-        text, missing = patched_main(src)
+    src = open(os.path.join(REPO, 'cmd', 'ow-sim', 'main.go')).read()
+    text, missing = patched_main(src)
+    ov = {}
+    if text != src:
         pm = os.path.join(OUT, 'C07', 'main_patched.go')
         with open(pm, 'w') as f:
             f.write(text)
-        ov = {'Replace': {
-            os.path.join(REPO, 'cmd', 'ow-sim', 'main.go'): pm,
-            os.path.join(REPO, 'cmd', 'ow-sim', 'verif_trace_on.go'): os.path.join(HOOKS, 'verif_trace_on.go'),
-            os.path.join(REPO, 'cmd', 'ow-sim', 'verif_trace_off.go'): os.path.join(HOOKS, 'verif_trace_off.go')}}
+        ov[os.path.join(REPO, 'cmd', 'ow-sim', 'main.go')] = pm
+        note = 'hook files from /repo; %d trace call(s) not yet in /repo\'s main.go supplied by -overlay' % \
+            (len(text.split('\n')) - len(src.split('\n')))
+    if not hooks_in_repo():
+        ov[os.path.join(REPO, 'cmd', 'ow-sim', 'verif_trace_on.go')] = os.path.join(HOOKS, 'verif_trace_on.go')
+        ov[os.path.join(REPO, 'cmd', 'ow-sim', 'verif_trace_off.go')] = os.path.join(HOOKS, 'verif_trace_off.go')
+        note = 'hooks supplied by -overlay from /verif/hooks (not yet in /repo)'
+    if ov:
         ovp = os.path.join(OUT, 'C07', 'overlay.json')
         with open(ovp, 'w') as f:
-            json.dump(ov, f)
+            json.dump({'Replace': ov}, f)
         cmd += ['-overlay', ovp]
-        note = 'hooks supplied by -overlay from /verif/hooks (not yet in /repo)'
     cmd += ['-o', out, 'github.com/flowmatters/openwater-core/cmd/ow-sim']
     with _Lock():
         sh('cp /repo/go.sum %s/go.sum' % HARNESS)
